@@ -41,7 +41,7 @@ def teardown(ctx):
 
 def plan(tier):
     m = 3 if tier == 'quick' else 20
-    return [('analysis', 1400 * m), ('short', 150 * m), ('long', 40 * m), ('derived', 150 * m)]
+    return [('analysis', 1400 * m), ('short', 150 * m), ('long', 40 * m), ('derived', 150 * m), ('siblings', 60 * m)]
 
 
 class saved_class_state:
@@ -133,7 +133,48 @@ def analyse(ctx, rng, o):
     return dict(S=S, tau_exp=te, N_sigma=ns, fft=fft, source=source)
 
 
+def case_siblings(ctx, rng):
+    """Several observables that share everything a cache key might be built from - chain names, first and
+    last configuration, number of configurations, spacing, window range - but have their holes at
+    different places and different data; analysed one after the other in this process with the same
+    parameters.  Each must equal the reference for ITS OWN pairs (added after seeded change seed3-C02)."""
+    pe = PE
+    e = str(rng.choice(gen.ENS_POOL))
+    reps = gen.rand_reps(rng, 2, allow_bare=True)
+    g = int(rng.choice([1, 2, 3]))
+    layout = {}
+    for r in reps:
+        name = e if r is None else '%s|%s' % (e, r)
+        n = int(rng.integers(12, 50))
+        span = n + int(rng.integers(3, n))          # grid points between first and last
+        layout[name] = (int(rng.integers(1, 40)), n, span)
+    kw = dict(S=float(rng.choice([0.5, 1, 2, 3])), fft=bool(rng.integers(0, 2)))
+    if rng.random() < 0.3:
+        kw['tau_exp'] = float(rng.choice([1.5, 5]))
+    kinds = ['ar', 'white', 'ar']
+    for k in range(3):
+        tab = {}
+        for name, (first, n, span) in layout.items():
+            inner = sorted(rng.choice(np.arange(1, span - 1), size=n - 2, replace=False).tolist())
+            grid = [0] + inner + [span - 1]
+            if not any(b - a == 1 for a, b in zip(grid, grid[1:])):
+                grid[1] = 1                         # keep the smallest spacing equal to g
+                grid = sorted(set(grid))
+            idl = [first + g * i for i in grid]
+            x = gen.rand_data(rng, len(idl), kinds[k])
+            tab[name] = {int(c): float(v) for c, v in zip(idl, x)}
+        o = gen.table_to_obs(pe, tab)
+        try:
+            o.gamma_method(**kw)
+        except ValueError as ex:
+            if 'at least 8 samples' not in str(ex):
+                raise
+    ctx.cell('siblings', 'reps%d' % len(layout))
+
+
 def run_case(ctx, kind, idx, rng):
+    if kind == 'siblings':
+        return case_siblings(ctx, rng)
     nmax = 60 if ctx.tier == 'quick' else int(rng.choice([60, 150, 500]))
     if kind == 'analysis':
         o = make_obs(rng, 5, nmax)
